@@ -90,6 +90,11 @@ func (d *refDriver) Generate(t *tape.Tape, tier string) core.Case {
 	c := &refCase{}
 	g := model.Generate(t.Sub("scenario"), d.profile(t.Sub("profile")))
 	c.Scenario = g.S
+	if d.id == "C11" {
+		// the module that declares a base may be loaded in two revisions, with
+		// some importers pinned to the older one
+		addOlderRevisionOpt(t.Sub("revisions"), g.S, 5, true)
+	}
 	names := sortedNames(model.RenderAll(g.S))
 	ht := t.Sub("history")
 	w := d.histories
@@ -187,9 +192,13 @@ func (d *refDriver) Run(cc core.Case) core.Outcome {
 	c := cc.(*refCase)
 	var o core.Outcome
 	o.Key = tape.Hash64(core.MarshalCase(c))
-	s := c.scenario()
 	texts := c.texts()
 	names := sortedNames(texts)
+	// the reference model sees the latest revision of every module only
+	s := latestOnly(c.scenario())
+	if len(s.Mods) != len(c.Scenario.Mods) {
+		o.Count("probe.two_revisions_loaded", 1)
+	}
 	cp := model.CompileWith(s, c.Options.IgnoreNotSupported)
 	must := model.MustReport(s)
 	execs := append([]c05Run{{Order: names, Sched: maporder.Canonical()}}, c.Runs...)
@@ -347,6 +356,6 @@ func (d *refDriver) Describe(cc core.Case) string {
 	for i, r := range c.Runs {
 		fmt.Fprintf(&sb, "run %d: order=%v sites=%v\n", i, r.Order, culpritSites(r.Sched))
 	}
-	fmt.Fprintf(&sb, "must report: %v\n", model.MustReport(c.scenario()))
+	fmt.Fprintf(&sb, "must report: %v\n", model.MustReport(latestOnly(c.scenario())))
 	return sb.String()
 }
